@@ -9,7 +9,7 @@ Record ctor_ok (m : mem) (own : bufid -> N) (m' : mem) (r' : repr) : Prop := {
   co_env : same_env m m';
   co_mi : MI (heap m') (fun b => own b + one (names r' b));
   co_h : handle_ok (heap m') (statics m') r';
-  co_frame : frame (heap m) (heap m') (fun _ => True);
+  co_frame : frame (heap m) (heap m') (fun b => 1 <= own b);
 }.
 
 Lemma ctor_ok_nonheap m own m' r' :
